@@ -81,7 +81,7 @@ def sum_stats(stats):
     return tot
 
 
-def query_check(run, gens, own_clauses, rule, assumptions, ops=False, mc=None, rnd=None):
+def query_check(run, gens, own_clauses, rule, assumptions, ops=False, mc=None, rnd=None, every=None):
     """Generic recipe for the families decided by QueryTrace.
     gens: list of (module, name, mod_quick, mod_thorough, cap_quick, cap_thorough, invariants, tickms)"""
     binary = vlib.build()
@@ -99,6 +99,9 @@ def query_check(run, gens, own_clauses, rule, assumptions, ops=False, mc=None, r
     sh = vlib.generate(run, "Shards", gen_cfg(run.tier, run.seed, 3 if quick else 1, ["EmitShard"]), "shard", fam=run.prop, cap=(400 if quick else 4000), timeout=900)
     log("generated shard: %d scenarios" % len(sh))
     scenarios += sh
+    if every:
+        # C01 is about every query: a sample of the scenarios of all the other generators, too
+        scenarios += all_scenarios(run, every[0], every[1], only=("sel", "win", "agg", "bin", "fn"))
     if rnd:
         gen, nq, nt = rnd
         rs = vlib.gen_random(run, binary, gen, nq if quick else nt, run.prop)
@@ -216,7 +219,7 @@ def c01(run):
               "datasets, windows of 1..35 steps with steps of 1..5 ticks, tick 0.5/1/15 s, per-query lookbacks) are replayed; their "
               "expected outcome is computed by TLC from PromQLRef during trace validation. distinct_nontrivial = structural scenarios on which PromQLRef agreed with Prometheus."),
         assumptions=["Prometheus v0.40.1 is the reference", "OPAQUE values are compared with the reference by the Go comparator (1e-9)"],
-        rnd=("compose", 3000, 40000))
+        rnd=("compose", 3000, 40000), every=(250, 4000))
 
 
 ALL_GENS = [("Gen_Selector", "sel", 16, 24, ["EmitSel"], 1000), ("Gen_Window", "win", 8, 16, ["EmitWin"], 1000),
